@@ -8,7 +8,7 @@ import timeouts as T
 PROP = 'C08'
 VARIANTS = ['main', 'reap']
 REPLAYERS = {'pool.Worker.workloop': 'replayers/workloop.py', 'pool.Pool._terminate_pool': 'replayers/terminate_pool.py',
-             'pool.Pool._join_exited_workers': 'replayers/join_exited.py'}
+             'pool.Pool._join_exited_workers': 'replayers/join_exited.py', 'pool.Worker._do_exit': 'replayers/worker_exit.py'}
 
 ASSUMPTIONS = [
     'the termination signal is modelled as arriving inside wait_for_job / wait_for_syn / the task / put (the points where the '
